@@ -239,4 +239,10 @@ def Eac3.build (h : Eac3) : Bytes :=
 /-- (sample rate, data rate, channels) -/
 def Eac3.values (h : Eac3) : Nat × Nat × Nat := eac3Values h.frmsiz h.fscod h.fscod2 h.blocksCode h.acmod h.lfeon
 
+/-- rate, data rate, channels; `length` is mutagen's documented guess: the bits behind the header of the first frame over
+the data rate -/
+def Eac3.expected (h : Eac3) : Ac3.Info :=
+  { channels := h.values.2.2, sampleRate := h.values.1, bitrate := h.values.2.1,
+    length := if h.values.2.1 = 0 then none else some ⟨8 * (h.payload.length : Int), h.values.2.1⟩, eac3 := true }
+
 end Mutagen.Spec.Ac3
